@@ -122,7 +122,8 @@ prop(
 
 prop(
     "C06",
-    configs={"quick": ["rel", "dbg"], "thorough": ["rel", "dbg"]},
+    configs={"quick": ["rel", "dbg", "race"], "thorough": ["rel", "dbg", "race"]},
+    race_batches={"quick": 4, "thorough": 8},
     timeout={"quick": 300, "thorough": 3000},
     rule="(1) all 65536 ports x {IPv4, IPv6, IPv4-mapped IPv6, one-byte near misses of the ::ffff:0:0/96 prefix} x 7 address attribute entry points (XOR-MAPPED-ADDRESS, XORMappedAddress.AddToAs "
          "over 7 types, MAPPED-ADDRESS, MappedAddress.AddToAs, ALTERNATE-SERVER, RESPONSE-ORIGIN, OTHER-ADDRESS) with random addresses and "
